@@ -1,4 +1,4 @@
-//! Proof harnesses shared by every contract that derives Ownable / Operatable / Upgradable: the
+//! `obl!` and the proof harnesses shared by every contract that derives Ownable / Operatable / Upgradable: the
 //! derive-generated entry points are the repository's real ones (real derive crate, real
 //! axelar-soroban-std); the harness is instantiated per contract type.
 
@@ -13,23 +13,23 @@ macro_rules! harness_ownable {
             let _h = shim::fresh_host();
             let new_owner = <$crate::Address as Wordy>::symbolic();
             let seen_owner = <$T>::owner(&env);
-            assert!(inst().pre::<_, $crate::Address>(&OWNER_KEY) == Some(seen_owner) && shim::no_effects(), "OBL C06.owner_view_agrees: owner() reports the stored role holder and changes nothing");
+            $crate::obl!(inst().pre::<_, $crate::Address>(&OWNER_KEY) == Some(seen_owner) && shim::no_effects(), "OBL C06.owner_view_agrees: owner() reports the stored role holder and changes nothing");
 
             <$T>::transfer_ownership(&env, new_owner.clone());
 
             let prev: Option<$crate::Address> = inst().pre(&OWNER_KEY);
-            assert!(matches!(&prev, Some(p) if shim::authed(p)), "OBL C06.owner_transfer_needs_owner: ownership changes hands only under the authorisation of the owner stored at entry");
-            assert!(inst().post::<_, $crate::Address>(&OWNER_KEY) == Some(new_owner.clone()), "OBL C06.owner_successor_exact: afterwards the role belongs to exactly the named successor");
+            $crate::obl!(matches!(&prev, Some(p) if shim::authed(p)), "OBL C06.owner_transfer_needs_owner: ownership changes hands only under the authorisation of the owner stored at entry");
+            $crate::obl!(inst().post::<_, $crate::Address>(&OWNER_KEY) == Some(new_owner.clone()), "OBL C06.owner_successor_exact: afterwards the role belongs to exactly the named successor");
             let prev_a = match prev {
                 Some(p) => p,
                 None => $crate::Address(0),
             };
-            assert!(
+            $crate::obl!(
                 shim::n_events() >= 1
                     && shim::event_is(0, &($crate::Symbol::new(&env, "ownership_transferred"), prev_a, new_owner.clone()), &$crate::Vec::<$crate::Val>::new(&env)),
                 "OBL C06.owner_transfer_event: the event names (previous owner, new owner)"
             );
-            assert!(inst().changed_only(&[Words::of(&OWNER_KEY)]) && pers().n_changed() == 0 && shim::n_calls() == 0 && shim::n_deploys() == 0, "OBL C06.owner_transfer_frame: nothing but the owner entry changes, no call is made");
+            $crate::obl!(inst().changed_only(&[Words::of(&OWNER_KEY)]) && pers().n_changed() == 0 && shim::n_calls() == 0 && shim::n_deploys() == 0, "OBL C06.owner_transfer_frame: nothing but the owner entry changes, no call is made");
             kani::cover!(true, "COVER ownable transfer returned");
         }
     };
@@ -46,23 +46,23 @@ macro_rules! harness_operatable {
             let _h = shim::fresh_host();
             let new_op = <$crate::Address as Wordy>::symbolic();
             let seen_op = <$T>::operator(&env);
-            assert!(inst().pre::<_, $crate::Address>(&OPERATOR_KEY) == Some(seen_op) && shim::no_effects(), "OBL C06.operator_view_agrees: operator() reports the stored role holder and changes nothing");
+            $crate::obl!(inst().pre::<_, $crate::Address>(&OPERATOR_KEY) == Some(seen_op) && shim::no_effects(), "OBL C06.operator_view_agrees: operator() reports the stored role holder and changes nothing");
 
             <$T>::transfer_operatorship(&env, new_op.clone());
 
             let prev: Option<$crate::Address> = inst().pre(&OPERATOR_KEY);
-            assert!(matches!(&prev, Some(p) if shim::authed(p)), "OBL C06.operator_transfer_needs_operator: operatorship changes hands only under the authorisation of the operator stored at entry (not the owner)");
-            assert!(inst().post::<_, $crate::Address>(&OPERATOR_KEY) == Some(new_op.clone()), "OBL C06.operator_successor_exact");
+            $crate::obl!(matches!(&prev, Some(p) if shim::authed(p)), "OBL C06.operator_transfer_needs_operator: operatorship changes hands only under the authorisation of the operator stored at entry (not the owner)");
+            $crate::obl!(inst().post::<_, $crate::Address>(&OPERATOR_KEY) == Some(new_op.clone()), "OBL C06.operator_successor_exact");
             let prev_a = match prev {
                 Some(p) => p,
                 None => $crate::Address(0),
             };
-            assert!(
+            $crate::obl!(
                 shim::n_events() == 1
                     && shim::event_is(0, &($crate::Symbol::new(&env, "operatorship_transferred"), prev_a, new_op.clone()), &$crate::Vec::<$crate::Val>::new(&env)),
                 "OBL C06.operator_transfer_event"
             );
-            assert!(inst().changed_only(&[Words::of(&OPERATOR_KEY)]) && pers().n_changed() == 0 && shim::n_calls() == 0 && shim::n_deploys() == 0, "OBL C06.operator_transfer_frame: nothing but the operator entry changes, no call is made");
+            $crate::obl!(inst().changed_only(&[Words::of(&OPERATOR_KEY)]) && pers().n_changed() == 0 && shim::n_calls() == 0 && shim::n_deploys() == 0, "OBL C06.operator_transfer_frame: nothing but the operator entry changes, no call is made");
             kani::cover!(true, "COVER operatable transfer returned");
         }
     };
@@ -82,10 +82,10 @@ macro_rules! harness_upgradable {
             <$T>::upgrade(&env, hash);
 
             let owner: Option<$crate::Address> = inst().pre(&OWNER_KEY);
-            assert!(matches!(&owner, Some(p) if shim::authed(p)), "OBL C15.upgrade_needs_owner: the code is replaced only under the authorisation of the owner stored at entry");
-            assert!(shim::n_wasm_updates() == 1 && shim::wasm_update_is(0, &hash), "OBL C15.upgrade_installs_requested_code: exactly one code update, to the requested hash");
-            assert!(inst().post_has(&MIGRATING_KEY), "OBL C15.upgrade_opens_window: an upgrade opens the migration window");
-            assert!(inst().changed_only(&[Words::of(&MIGRATING_KEY)]) && pers().n_changed() == 0 && shim::n_events() == 0 && shim::n_calls() == 0, "OBL C15.upgrade_frame");
+            $crate::obl!(matches!(&owner, Some(p) if shim::authed(p)), "OBL C15.upgrade_needs_owner: the code is replaced only under the authorisation of the owner stored at entry");
+            $crate::obl!(shim::n_wasm_updates() == 1 && shim::wasm_update_is(0, &hash), "OBL C15.upgrade_installs_requested_code: exactly one code update, to the requested hash");
+            $crate::obl!(inst().post_has(&MIGRATING_KEY), "OBL C15.upgrade_opens_window: an upgrade opens the migration window");
+            $crate::obl!(inst().changed_only(&[Words::of(&MIGRATING_KEY)]) && pers().n_changed() == 0 && shim::n_events() == 0 && shim::n_calls() == 0, "OBL C15.upgrade_frame");
             kani::cover!(true, "COVER upgrade returned");
         }
         #[kani::proof]
@@ -100,23 +100,36 @@ macro_rules! harness_upgradable {
             let open = inst().pre_has(&MIGRATING_KEY);
             match r {
                 Ok(()) => {
-                    assert!(matches!(&owner, Some(p) if shim::authed(p)), "OBL C15.migrate_needs_owner: a migration runs only under the authorisation of the owner stored at entry");
-                    assert!(open, "OBL C15.migrate_needs_open_window: a migration runs only while the window opened by an upgrade is open");
-                    assert!(!inst().post_has(&MIGRATING_KEY), "OBL C15.migrate_closes_window: so it can never run twice for one upgrade");
-                    assert!(
+                    $crate::obl!(matches!(&owner, Some(p) if shim::authed(p)), "OBL C15.migrate_needs_owner: a migration runs only under the authorisation of the owner stored at entry");
+                    $crate::obl!(open, "OBL C15.migrate_needs_open_window: a migration runs only while the window opened by an upgrade is open");
+                    $crate::obl!(!inst().post_has(&MIGRATING_KEY), "OBL C15.migrate_closes_window: so it can never run twice for one upgrade");
+                    $crate::obl!(
                         shim::n_events() == 1 && shim::event_is(0, &($crate::symbol_short!("upgraded"),), &(<$T>::version(&env),)),
                         "OBL C15.migrate_announces_version: exactly one `upgraded` event carrying the contract's version"
                     );
-                    assert!(inst().changed_only(&[Words::of(&MIGRATING_KEY)]) && pers().n_changed() == 0 && shim::n_calls() == 0 && shim::n_wasm_updates() == 0, "OBL C15.migrate_frame");
+                    $crate::obl!(inst().changed_only(&[Words::of(&MIGRATING_KEY)]) && pers().n_changed() == 0 && shim::n_calls() == 0 && shim::n_wasm_updates() == 0, "OBL C15.migrate_frame");
                     kani::cover!(true, "COVER migrate ok");
                 }
                 Err(e) => {
-                    assert!(!open, "OBL C15.migrate_err_only_when_closed");
-                    assert!($crate::Error::from(e) == $crate::Error::from(<$E>::MigrationNotAllowed), "OBL C15.migrate_err_code");
-                    assert!(shim::no_effects(), "OBL C15.migrate_refused_no_effect");
+                    $crate::obl!(!open, "OBL C15.migrate_err_only_when_closed");
+                    $crate::obl!($crate::Error::from(e) == $crate::Error::from(<$E>::MigrationNotAllowed), "OBL C15.migrate_err_code");
+                    $crate::obl!(shim::no_effects(), "OBL C15.migrate_refused_no_effect");
                     kani::cover!(true, "COVER migrate err");
                 }
             }
+        }
+    };
+}
+
+/// One named obligation.  Kani's `assert!` also *assumes* the condition afterwards, so a failing
+/// obligation would hide every later obligation on the same path (a failing C04-obligation would mask a
+/// C11-obligation written after it).  Checking each obligation on its own nondeterministic branch keeps
+/// them independent: every obligation is decided whatever the others do.
+#[macro_export]
+macro_rules! obl {
+    ($c:expr, $m:literal $(,)?) => {
+        if $crate::shim::nondet::<bool>() {
+            assert!($c, $m);
         }
     };
 }
